@@ -115,6 +115,47 @@ def work(job):
     except Exception as ex:
         return None, '%s: %s' % (type(ex).__name__, ex), None
 
+def judge_session(b, ob, d, kind, arg, r):
+    """-> [(failure, known finding or None)] for one session: package-level oracle, then (edit batches) the stories no edit targets and
+    the paragraph properties / styles of the pre-existing paragraphs; every failure is classified by the model's verdict on the input"""
+    out = []
+    f = oracle(b, ob)
+    verdict = None
+    def classify(msg):
+        nonlocal verdict
+        if verdict is None:
+            verdict = {'outside': 0, 'nn': 0, 'xp': 0}
+            if kind == 'edits' and r is not None:
+                din0 = A.read(b, table=list(d['rpr_table']))
+                (ml,) = core.run_driver('edits', [docrun.sx_edits_line(din0, E.AUTHOR, arg, r['oracle'])])
+                if '|' in ml:
+                    cnt = ml.split('|')[0].split(); verdict = {'outside': int(cnt[2]), 'nn': int(cnt[3]), 'xp': int(cnt[4])}
+        return J.classify(dict(verdict), msg)
+    if f: return [classify(f)]
+    if kind == 'edits':
+        # paragraph properties / styles of the pre-existing paragraphs (aligned by rejecting the session)
+        din = A.read(b, table=list(d['rpr_table'])); dout = docrun.canon_session(A.read(ob, table=din['rpr_table']), din)
+        back = E.session_reject(dout, din)
+        # stories whose text was not targeted keep exactly their content (tape level: loading coalesces runs in every story); a story
+        # counts as targeted when a target occurs in it up to what the approximate matcher stages ignore (markers, quote style, whitespace)
+        strip = lambda t: re.sub(r'\*\*|__|_|\{[-+=]{2}|[-+=]{2}\}|\{>>.*?<<\}', '', t)
+        stext = lambda st, view: '\n'.join(E.para_texts({'stories': [st]}, view))
+        hits = lambda t, st: any(t in stext(st, v) or (docrun._loose(t) and docrun._loose(t) in docrun._loose(stext(st, v))) for v in ('raw', 'acc'))
+        tg = [strip(e[0]) for e in arg if e[0]]
+        if all(any(hits(t, st) for st in din['stories']) for t in tg) and not any(e[3] is not None for e in arg):
+            for st_in, st_out in zip(din['stories'], dout['stories']):
+                if any(hits(t, st_in) for t in tg): continue
+                if E.tape_nopid({'stories': [st_in]}) != E.tape_nopid({'stories': [st_out]}):
+                    msg = 'the story %s, whose text no edit of the batch targets, changed' % st_in.get('part', '?')
+                    ff, kn = classify(msg)
+                    if not kn and J.in_virtual({'din': din, 'edits': arg}, docrun.extract(b, False)): kn = ('D40', J.WHAT['D40'])      # the target was found in virtual text of that story first
+                    out.append((msg, kn)); break
+        pa = [(p['ppr'], tuple(p['style'])) for p in A.paras(din)]; pb = [(p['ppr'], tuple(p['style'])) for p in A.paras(back)]
+        if len(pa) == len(pb) and pa != pb:
+            k = next(i for i in range(len(pa)) if pa[i] != pb[i])
+            out.append(classify('paragraph %d lost or changed its paragraph properties / style: %s -> %s' % (k, pa[k], pb[k])))
+    return out
+
 def run(tier, seed):
     ck = core.Check('C11', tier, seed)
     ck.proof_gate(['Props/C11.v'], extra_trusted=[
@@ -154,6 +195,31 @@ def run(tier, seed):
         b = A.build(d, ex)
         new = ('In short, **%s**' if i % 2 == 0 else 'Intro line\n**%s**') % word      # inline / with a line break (fix D53)
         jobs.append((b, 'edits', [('**%s**' % word, new, None, None)])); meta.append((d, ex))
+    # targeted: (a) two stories of the SAME kind in a row (running header + first-page header, likewise footers), block text inserted at
+    # the very start of the second one: it belongs to that story, not to its namesake before it; (b) a section-ending paragraph with
+    # text, replaced / extended by every kind of block text: the new paragraphs do not repeat the section break
+    for i in range(12 if tier == 'quick' else 120):
+        d = docgen.gen_doc(rng, 'plain'); ex = gen_extras(rng)
+        if ex.get('comments_name') and not (d['comments'] or ex.get('force_comments_part')): ex.pop('comments_name')
+        g = docgen.Gen(rng, 'plain'); g.uid = d['next_uid'] + 10
+        mk = lambda txt, f=None, ppr=0: {'t': 'p', 'pid': g.fresh(), 'ppr': ppr, 'style': ['N', False], 'nodes': [['run', g.fresh(), f, [['t', txt]]], ['run', g.fresh(), None, [['t', ' and more text %d' % i]]]]}
+        body = [st for st in d['stories'] if st['kind'] == 1][0]
+        if i % 2 == 0:
+            kind = rng.choice([0, 2]); word = 'Second%d' % i
+            d['stories'] = [st for st in d['stories'] if st['kind'] != kind]
+            pair = [{'kind': kind, 'blocks': [mk('Running text %d' % i)]}, {'kind': kind, 'hf': 'first', 'blocks': [mk(word, rng.choice([None, [[1, 1]]]))]}]
+            d['stories'] = (pair + d['stories']) if kind == 0 else (d['stories'] + pair)
+            new = rng.choice(['Intro line\n%s', '# Cover\n%s', 'DRAFT\nNot for circulation\n%s']) % word
+            edits = [(word, new, rng.choice([None, 'c']), None)]
+        else:
+            word = 'Closing%d' % i
+            body['blocks'].insert(rng.randint(0, len(body['blocks'])), mk(word, None, 5))
+            body['blocks'].append(mk('Last paragraph %d' % i))
+            new = rng.choice(E.BLOCK_NEWS + ['# Heading\nplain one\nplain two', '## H2 {t}\nbody']).replace('{t}', word)
+            edits = [(word, new, rng.choice([None, 'c']), None)]
+        d['next_uid'] = g.uid + 1000
+        b = A.build(d, ex)
+        jobs.append((b, 'edits', edits)); meta.append((d, ex))
     with Pool(core.NPROC, initializer=docrun.impl_init) as pool:
         res = pool.map(work, jobs, chunksize=8)
     mo = core.run_driver('package', [pkg_line(b) for b, _, _ in jobs])
@@ -166,34 +232,7 @@ def run(tier, seed):
             # an engine failure is judged by C08; here only note it unless it is the package layer that fails
             if 'edits' != kind or 'XmlPart' in err or 'part' in err.lower(): ck.violation('oracle', case, 'session raised ' + err)
             continue
-        f = oracle(b, ob)
-        if not f and kind == 'edits':
-            # paragraph properties / styles of the pre-existing paragraphs (aligned by rejecting the session)
-            din = A.read(b, table=list(d['rpr_table'])); dout = docrun.canon_session(A.read(ob, table=din['rpr_table']), din)
-            back = E.session_reject(dout, din)
-            # stories whose text was not targeted keep exactly their content (tape level: loading coalesces runs in every story)
-            strip = lambda t: re.sub(r'\*\*|__|_|\{[-+=]{2}|[-+=]{2}\}|\{>>.*?<<\}', '', t)
-            stext = lambda st, view: '\n'.join(E.para_texts({'stories': [st]}, view))
-            tg = [strip(e[0]) for e in arg if e[0]]
-            if all(any(t in stext(st, v) for st in din['stories'] for v in ('raw', 'acc')) for t in tg) and not any(e[3] is not None for e in arg):
-                for st_in, st_out in zip(din['stories'], dout['stories']):
-                    if any(t in stext(st_in, v) for t in tg for v in ('raw', 'acc')): continue
-                    if E.tape_nopid({'stories': [st_in]}) != E.tape_nopid({'stories': [st_out]}):
-                        msg = 'the story %s, whose text no edit of the batch targets, changed' % st_in.get('part', '?')
-                        if J.in_virtual({'din': din, 'edits': arg}, docrun.extract(b, False)): ck.known('D40', J.WHAT['D40'], case)      # the target was found in virtual text of that story first
-                        else: ck.violation('oracle', case, msg)
-                        break
-            pa = [(p['ppr'], tuple(p['style'])) for p in A.paras(din)]; pb = [(p['ppr'], tuple(p['style'])) for p in A.paras(back)]
-            if len(pa) == len(pb) and pa != pb:
-                k = next(i for i in range(len(pa)) if pa[i] != pb[i])
-                ck.violation('oracle', case, 'paragraph %d lost or changed its paragraph properties / style: %s -> %s' % (k, pa[k], pb[k]))
-        if f:
-            code = 0; nn = 0; xp = 0
-            if kind == 'edits' and r is not None:
-                din = A.read(b, table=list(d['rpr_table']))
-                (ml,) = core.run_driver('edits', [docrun.sx_edits_line(din, E.AUTHOR, arg, r['oracle'])])
-                code = int(ml.split('|')[0].split()[2]) if '|' in ml else 0; nn = int(ml.split('|')[0].split()[3]) if '|' in ml else 0; xp = int(ml.split('|')[0].split()[4]) if '|' in ml else 0
-            ff, kn = J.classify({'outside': code, 'nn': nn, 'xp': xp}, f)
+        for f, kn in judge_session(b, ob, d, kind, arg, r):
             if kn: ck.known(kn[0], kn[1], case)
             else: ck.violation('oracle', case, f)
         # correspondence: predicted part list and main-document relationships
@@ -221,6 +260,9 @@ def replay(path):
     kind, arg = c['session']
     ob, err, rr = work((b, kind, [tuple(a) for a in arg] if arg else arg))
     if err: print('VIOLATION property=C11 replay=%s' % path); print(err); return 1
-    f = oracle(b, ob); print(f)
-    if f: print('VIOLATION property=C11 replay=%s' % path); return 1
-    print('property holds on this input'); return 0
+    bad = 0
+    for f, kn in judge_session(b, ob, d, kind, [tuple(a) for a in arg] if arg else arg, rr):
+        print(('KNOWN %s: ' % kn[0] if kn else 'FAIL: ') + f)
+        if not kn: bad = 1
+    if bad: print('VIOLATION property=C11 replay=%s' % path); return 1
+    print('property holds on this input (or lies in a recorded region)'); return 0
